@@ -302,9 +302,11 @@ func (s *store) Batch(operations []spi.Operation) error {
 		}
 	}
 
-	for _, operation := range operations {
-		s.Lock()
+	// The lock is held over the whole batch: other operations see all of its elements or none of them.
+	s.Lock()
+	defer s.Unlock()
 
+	for _, operation := range operations {
 		s.currentBatch = append(s.currentBatch, operation)
 
 		currentBatchLength := len(s.currentBatch)
@@ -312,12 +314,9 @@ func (s *store) Batch(operations []spi.Operation) error {
 		if currentBatchLength >= s.batchSizeLimit {
 			err := s.flush()
 			if err != nil {
-				s.Unlock()
 				return fmt.Errorf(failFlush, err)
 			}
 		}
-
-		s.Unlock()
 	}
 
 	return nil
